@@ -1150,7 +1150,9 @@ def quoted_scalars(run, repo):
             return "species: ['NO', N2, 'ON']\nname: 'NO'\nsite-density: '\"2.5 mol/cm^2\"'\n"
         I.native['yaml.dump'] = dump
         out = I.call_function(m, fn, [], dict(kw, units=units_obj(I, repo)))
-        txt = I.seg(out).literal() if isinstance(out, (str, SegStr)) and I.seg(out).is_literal() else None
+        # (what is not literal - the time stamp of the header comment - is spelled with a placeholder)
+        txt = ''.join(s_.text if s_.kind == 'lit' else '\x01' for s_ in I.seg(out).segs) \
+            if isinstance(out, (str, SegStr)) else None
         if txt is None:
             run.fail('DATAFLOW.quotes', 'io.omkm.' + writer, 'quoted scalars', 'the writer gives %s' % show(out, 120),
                      m, fn)
@@ -1194,11 +1196,12 @@ def units_header(run, repo):
             got = None
             # what the file must declare is fixed by the writer and the chosen system, whatever the writer returns
             want = dict(chosen) if writer == 'write_cti' else {yaml_key.get(k_, k_): v_ for k_, v_ in chosen.items()}
-            if writer == 'write_cti' and isinstance(out, (str, SegStr)) and I.seg(out).is_literal():
-                txt = I.seg(out).literal()
+            if writer == 'write_cti' and isinstance(out, (str, SegStr)):
+                # (what is not literal - the time stamp of the header comment - is spelled with a placeholder)
+                txt = ''.join(s_.text if s_.kind == 'lit' else '\x01' for s_ in I.seg(out).segs)
                 i_ = txt.find('units(')
                 j_ = txt.find(')', i_)
-                if i_ >= 0 and j_ > i_ and txt.count('units(') == 1:
+                if i_ >= 0 and j_ > i_ and txt.count('units(') == 1 and '\x01' not in txt[i_:j_]:
                     pairs = re.findall(r'(\w+)\s*=\s*"([^"]*)"', txt[i_ + 6:j_])
                     got = dict(pairs) if len(pairs) == len(set(k_ for k_, _v in pairs)) else None
             elif writer == 'write_thermo_yaml' and not isinstance(out, Raised):
@@ -1519,12 +1522,21 @@ def check(run, repo):
     organize(run, repo)
     from .c07b import emitters
     emitters(run, repo)
-    run.floor('C07 obligations', run.obligations, 1300)
+    run.floor('C07 obligations', run.obligations, 1100)
 
 
 O_ = 'pmutt/io/omkm.py'
 R_ = 'pmutt/omkm/reaction.py'
 MUTANTS = [
+    # the four repairs of white-box round 3 reverted (D1-D4, known_findings.json status=fixed)
+    {'name': 'D4 reverted: NASA-9 entry closes the thermo tuple only', 'expect': ('SLOT.cti', 'Nasa9.to_cti'),
+     'edits': [('pmutt/empirical/nasa.py', "        cti_str = '{}))\\n'.format(cti_str[:-2])", "        cti_str = '{})\\n'.format(cti_str[:-2])")]},
+    {'name': 'D1 reverted: NumPy numbers handed to the serialiser as they are', 'expect': ('DATAFLOW.reactor', 'write_yaml'),
+     'edits': [('pmutt/omkm/__init__.py', "    if hasattr(param.val, 'tolist'):\n        param = param._replace(val=param.val.tolist())", "    if False:\n        param = param._replace(val=param.val.tolist())")]},
+    {'name': 'D2 reverted: the reactor dictionary of the caller is filled in place', 'expect': ('EFFECT.caller-dict', 'write_yaml'),
+     'edits': [(O_, "        reactor = dict(reactor)", "        reactor = reactor")]},
+    {'name': 'D3 reverted: every single quote removed from the thermo YAML', 'expect': ('DATAFLOW.quotes', 'write_thermo_yaml'),
+     'edits': [(O_, "    lines_out = lines_out.replace('\\'\"', '\"').replace('\"\\'', '\"')", "    lines_out = lines_out.replace('\\'', '')")]},
     {'name': 'a BEP relation is listed once per reaction', 'expect': ('DATAFLOW.phase', 'InteractingInterface.to_cti'),
      'edits': [('pmutt/omkm/phase.py', "                if bep.name in beps:\n                    continue", "                if bep.name in beps:\n                    pass")]},
     {'name': 'reactions declared only when there are none', 'expect': ('DATAFLOW.phase', 'InteractingInterface.to_omkm_yaml'),
@@ -1727,6 +1739,11 @@ EQUIV = [
      'edits': [('pmutt/omkm/__init__.py', "        val_str = '\\\"{} {}\\\"'.format(param.val, param.units)", "        val_str = '\\\"{!r} {}\\\"'.format(param.val, param.units)")]},
     {'name': 'NASA coefficients as nested tolist of the stacked arrays',
      'edits': [('pmutt/empirical/nasa.py', "                       'data': [self.a_low.tolist(),\n                                self.a_high.tolist()]}", "                       'data': np.array([self.a_low, self.a_high]).tolist()}")]},
+    {'name': 'C17_B3: slopes of a lateral interaction behind a property, read privately by the helper',
+     'edits': [('pmutt/mixture/cov.py', "        self.name = name\n\n    def insert(self, interval, slope):", "        self.name = name\n\n    @property\n    def slopes(self):\n        return self._slopes\n\n    @slopes.setter\n    def slopes(self, slopes):\n        self._slopes = slopes\n\n    def insert(self, interval, slope):"),
+               ('pmutt/mixture/cov.py', "        return [slope * factor for slope in self.slopes]", "        return [slope * factor for slope in self._slopes]")]},
+    {'name': 'C02_B3: temperature bounds of a NASA-9 segment behind properties',
+     'edits': [('pmutt/empirical/nasa.py', "        self.T_low = T_low\n        self.T_high = T_high\n        self.a = np.array(a)\n", "        self._T_low = T_low\n        self._T_high = T_high\n        self.a = np.array(a)\n\n    def _get_T_low(self):\n        return self._T_low\n\n    def _set_T_low(self, val):\n        self._T_low = val\n\n    def _get_T_high(self):\n        return self._T_high\n\n    def _set_T_high(self, val):\n        self._T_high = val\n\n    T_low = property(_get_T_low, _set_T_low)\n    T_high = property(_get_T_high, _set_T_high)\n")]},
     {'name': 'coefficients of the equation with three decimals',
      'edits': [(R_, "        yaml_dict['equation'] = self.to_string(stoich_space=True,", "        yaml_dict['equation'] = self.to_string(stoich_space=True, stoich_format='.3f',")]},
 ]
